@@ -794,6 +794,7 @@ class Machine:
             d = dict(st.extra.get('ub') or {})
             d[repr(v)] = min(bound, d.get(repr(v), bound))
             st.extra['ub'] = d
+            st.extra['ubs'] = tuple(st.extra.get('ubs') or ()) + ((v, bound),)
 
     def binop(self, cfg, fr, op, a, b, tys, sp):
         st = cfg.st
@@ -1288,10 +1289,10 @@ class Machine:
             out.append(c2)
         return out
 
-    def step(self, cfg):
-        """Execute the current block of the top frame.  Returns None (continue), [configs] or Outcome."""
-        fr = cfg.stack[-1]
-        if self.cuts and len(cfg.stack) == 1 and fr.bb in self.cuts:
+    def at_cut(self, cfg, fr):
+        """loop cut of the root body: a path ends when it reaches a cut block a second time (machines with their own notion of
+        a covered arrival override this)"""
+        if len(cfg.stack) == 1 and fr.bb in self.cuts:
             cv = dict(cfg.st.extra.get('cutvisits') or {})
             if cv.get(fr.bb, 0) >= 1:
                 o = Outcome(cfg.st, 'cut')
@@ -1299,6 +1300,15 @@ class Machine:
                 return o
             cv[fr.bb] = cv.get(fr.bb, 0) + 1
             cfg.st.extra['cutvisits'] = cv
+        return None
+
+    def step(self, cfg):
+        """Execute the current block of the top frame.  Returns None (continue), [configs] or Outcome."""
+        fr = cfg.stack[-1]
+        if self.cuts:
+            r = self.at_cut(cfg, fr)
+            if r is not None:
+                return r
         blk = fr.body['blocks'][fr.bb]
         if blk['t']['k'] == 'yield':
             for s_ in blk['s']:
